@@ -61,7 +61,7 @@ const std::string kBech32Chars = "qpzry9x8gf2tvdw0s3jn54khce6mua7l";
 
 } // namespace
 
-VERIF_TARGET(c45_address, init_c45_addr, 8, 64,
+VERIF_TARGET(c45_address, init_c45_addr, 48, 64,
              "one destination (type, payload, network generated): encode/decode round trip on its network, decode on the 4 other networks "
              "(invalid unless the documented formats coincide); non-trivial = every case (5 networks decoded); distinct = type x network x "
              "program length x version")
